@@ -321,8 +321,10 @@ def c10(run):
     return check(run, "C10", {"C10"}, [("wfault", TYPE_PARTS), ("build", TYPE_PARTS)],
                  "packets of the build family written to a writer that accepts everything, and small packets written to a "
                  "writer that accepts exactly k bytes then reports E for every k below the frame length; malformed but "
-                 "constructible packets and Undefined",
-                 ["D7: writers obey io.Writer (an error whenever fewer bytes are accepted)"])
+                 "constructible packets and Undefined; seeded random setter histories with WriteTo between the calls (a packet that grows "
+                 "and shrinks between two writes)",
+                 ["D7: writers obey io.Writer (an error whenever fewer bytes are accepted)"],
+                 histories=400 if run.tier == "quick" else 5000)
 
 
 def c11(run):
